@@ -70,6 +70,10 @@ func c19Single(w *core.W, n model.Name, kind string) {
 			if got := dns.CountLabel(s); got != len(n) {
 				w.Violation("C19/CountLabel/"+form, fmt.Sprintf("CountLabel(%q)=%d, wire labels=%d", s, got, len(n)), wit)
 			}
+			// the label count IsDomainName reports for a valid name (the root is documented to count as 1)
+			if cnt, ok := dns.IsDomainName(s); ok && len(n) > 0 && n.Valid() && cnt != len(n) {
+				w.Violation("C19/IsDomainName-label-count/"+form, fmt.Sprintf("IsDomainName(%q) reports %d labels, wire labels=%d", s, cnt, len(n)), wit)
+			}
 			got := dns.Split(s)
 			if !(len(got) == 0 && len(starts) == 0) && !reflect.DeepEqual(got, starts) {
 				w.Violation("C19/Split/"+form, fmt.Sprintf("Split(%q)=%v, label starts are %v", s, got, starts), wit)
